@@ -8,6 +8,7 @@ import ALV.Lemmas.C08Call
 import ALV.Lemmas.C08Mut
 import ALV.Lemmas.C08Table
 import ALV.Lemmas.C08NonFin
+import ALV.Lemmas.C08Src
 import ALV.Common.Audit
 
 namespace ALV.Props.C08
@@ -964,6 +965,108 @@ example : (true = true → ((-3 : Int) : Rat).den = 1) ∧ (false = true → (1/
 example : blocksMut 4 2 (0:Nat) (fun k => applyOps 4 (if k = 0 then [DqOp.pop, .pop, .pop, .appendleft 7] else []))
     [0,1,2,3,4,5,6] = [[0,1,2,3],[7,0,4,5],[4,5,6,0]] := by decide
 example : (0:Nat) < 4 ∧ (0:Nat) < 2 ∧ 2 ≤ 4 ∧ 4 + 2 ≤ [0,1,2,3,4,5,6].length := by decide
+
+/-! ### The model regenerated from the source
+
+`ALV/Gen/C08Src.lean` is rewritten on every check by the translator `harness/props/c08_tr.py` from the text of
+`lazy_misc.blocks` / `lazy_misc.zero_pad` in the repo under test (constants, comparisons, reset values, order of
+the statements, loop selection, tail clause, defaults).  The theorems below say that what the source says NOW is the
+hand-written model; with them every theorem above is a theorem about the regenerated definitions. -/
+
+section Src
+variable {ι : Type} [Add ι] [Sub ι] [LT ι] [LE ι] [DecidableEq ι]
+  [DecidableRel (fun a b : ι => a < b)] [DecidableRel (fun a b : ι => a ≤ b)] [OfNat ι 0] [OfNat ι 1]
+
+/-- **C08.T1**: the body of the `hop > size` loop as the source has it is the model's `gstep`, with
+`last = size - 1` and `reinit = size - hop`, on every index type (int, exact rational, non-finite). -/
+theorem src_loop2_step_is_model (maxlen : Nat) (size hop : ι) (hopInt : Bool) :
+    Gen.C08.loop2_step (α := α) maxlen size hop hopInt = gstep maxlen (size - 1) (size - hop) hopInt := by
+  funext s x; exact loop2_step_eq_gstep maxlen size hop hopInt s x
+
+/-- **C08.T2**: the body of the `hop <= size` loop (no skip test) is `gstep` wherever the index is not negative … -/
+theorem src_loop1_step_is_model (maxlen : Nat) (size hop : ι) (hopInt : Bool) (s : GState ι α) (x : α)
+    (h : ¬ s.idx < 0) :
+    Gen.C08.loop1_step maxlen size hop hopInt s x = gstep maxlen (size - 1) (size - hop) hopInt s x :=
+  loop1_step_eq_gstep maxlen size hop hopInt s x h
+end Src
+
+/-- … and under the source's loop selection `hop <= size` it never is: from the base model's step
+(`bstep`, the one `blocks_eq_spec` is about) both regenerated bodies are indistinguishable. -/
+theorem src_step_is_bstep (size hop : Nat) (rInt : Bool) (s : GState Int α) (x : α) :
+    toB (Gen.C08.loop2_step size (size : Int) (hop : Int) rInt s x).1 = (bstep size hop (toB s) x).1 ∧
+    (Gen.C08.loop2_step size (size : Int) (hop : Int) rInt s x).2 = (bstep size hop (toB s) x).2 ∧
+    (¬ s.idx < 0 → Gen.C08.loop1_step size (size : Int) (hop : Int) rInt s x =
+      Gen.C08.loop2_step size (size : Int) (hop : Int) rInt s x) := by
+  rw [loop2_step_eq_gstep]
+  obtain ⟨h1, h2, _⟩ := gstep_int size hop rInt s x
+  exact ⟨h1, h2, fun h => by rw [loop1_step_eq_gstep _ _ _ _ _ _ h]⟩
+
+/-- **C08.T3**: the tail clause of the source (`idx > max(size-hop, 0)`, `xrange(idx, size)` pads, one more block) is
+the model's `gtail` / `btail`. -/
+theorem src_tail_is_model (size : Nat) (hop : Int) (pad : α) (s : GState Int α) :
+    Gen.C08.tail size (size : Int) hop Int.toNat pad s = gtail size ((size : Int) - hop) Int.toNat pad s :=
+  tail_eq_gtail size (size : Int) hop Int.toNat pad s (by intro i; unfold Py.max2; split <;> omega)
+
+/-- **C08.T4**: the whole body of `blocks` as the source has it (start state, loop selection, both loops, tail), run to
+its end on each of the three index types Python computes with, is the model's run `grun`. -/
+theorem src_blocks_run_is_model (sz : Nat) (pad : α) (xs : List α) (e : Ending) :
+    (∀ (h : Int) (hopInt : Bool), Gen.C08.blocks_run sz (sz : Int) h hopInt Int.toNat pad xs e =
+      grun sz ((sz : Int) - 1) ((sz : Int) - h) hopInt Int.toNat pad xs e) ∧
+    (∀ (q : Rat) (hopInt : Bool) (toN : Rat → Nat), Gen.C08.blocks_run sz (sz : Rat) q hopInt toN pad xs e =
+      grun sz ((sz : Rat) - 1) ((sz : Rat) - q) hopInt toN pad xs e) ∧
+    (∀ (k : NonFin) (hopInt : Bool), Gen.C08.blocks_run sz (XRat.fin (sz : Rat)) (XRat.ofNonFin k) hopInt XRat.toN pad xs e =
+      grun sz (XRat.fin ((sz : Rat) - 1)) (XRat.sizeMinus k) hopInt XRat.toN pad xs e) :=
+  ⟨fun h b => blocks_run_int sz h b pad xs e, fun q b t => blocks_run_rat sz q b t pad xs e,
+   fun k b => blocks_run_nonfin sz k b pad xs e⟩
+
+/-- **C08.T5**: the call model IS the regenerated body behind the model's refusals of `deque(maxlen=size)` /
+`size - hop`, with the source's own `if hop is None: hop = size`. -/
+theorem src_blocksCall_is_model (dflt : α) (size hop : Num) (padval : Option α) (it : Bool) (xs : List α) (e : Ending) :
+    blocksCall dflt size hop padval it xs e = blocksCallSrc dflt size hop padval it xs e :=
+  blocksCall_eq_src dflt size hop padval it xs e
+
+theorem src_hop_default_is_model (sz : Nat) (hop : Num) :
+    Gen.C08.hop_bound (.int sz) .none = .int sz ∧ (hop ≠ .none → Gen.C08.hop_bound (.int sz) hop = hop) ∧
+    initHop sz (Gen.C08.hop_bound (.int sz) hop) = initHop sz hop :=
+  ⟨rfl, fun h => by simp [Gen.C08.hop_bound, h], initHop_hop_bound sz hop⟩
+
+/-- **C08.T6**: the blocks of the regenerated body, for int `size` and `hop`, are the `blocks` of the base model — the
+function `blocks_eq_spec` (C08.1) is about; no hypothesis on size or hop. -/
+theorem src_blocks_is_model (size hop : Nat) (pad : α) (xs : List α) :
+    (Gen.C08.blocks_run size (size : Int) (hop : Int) true Int.toNat pad xs .stop).events.map Prod.snd =
+      blocks size hop pad xs := by
+  rw [blocks_run_int, grun_int, runOfBase_int]
+  obtain ⟨h1, h2⟩ := bloopEv_snd size hop xs (⟨[], 0⟩ : BState α) 0
+  simp only [blocksTrace, blocks, List.map_append, h1, h2, List.map_map]
+  congr 1
+  simp [Function.comp_def]
+
+/-- hence the property itself, stated about the regenerated definition -/
+theorem src_blocks_eq_spec (size hop : Nat) (hs : 0 < size) (hh : 0 < hop) (pad : α) (xs : List α) :
+    (Gen.C08.blocks_run size (size : Int) (hop : Int) true Int.toNat pad xs .stop).events.map Prod.snd =
+      blocksSpec size hop pad xs := by
+  rw [src_blocks_is_model, blocks_eq_spec size hop hs hh]
+
+/-- **C08.T7**: `zero_pad` as the source has it (its loops in their order) is the model. -/
+theorem src_zero_pad_is_model : @Gen.C08.zero_pad α = zeroPad := by
+  funext l r z xs; exact zero_pad_eq l r z xs
+
+/-- **C08.T8**: names, order and default values of the parameters in the source are the ones the call model binds
+with (`blocksParams`, `zeroPadParams`, one required parameter, `size=None, hop=None, padval=0.`, `left=0, right=0,
+zero=0.`). -/
+theorem src_signatures_are_model :
+    Gen.C08.blocks_params.map Prod.fst = blocksParams ∧ nRequired Gen.C08.blocks_params = 1 ∧
+    Gen.C08.blocks_params.map Prod.snd = [none, some .none, some .none, some (.flt 0 1)] ∧
+    Gen.C08.zero_pad_params.map Prod.fst = zeroPadParams ∧ nRequired Gen.C08.zero_pad_params = 1 ∧
+    Gen.C08.zero_pad_params.map Prod.snd = [none, some (.int 0), some (.int 0), some (.flt 0 1)] := by decide
+
+-- the regenerated body runs: size 3, hop 2 / hop 4 (skip loop) / float hop 2.0 (TypeError in place of the padded block)
+example : (Gen.C08.blocks_run 3 (3 : Int) 2 true Int.toNat (0:Nat) [1,2,3,4,5,6] .stop).events =
+    [(3, [1,2,3]), (5, [3,4,5]), (6, [5,6,0])] := by decide
+example : (Gen.C08.blocks_run 3 (3 : Int) 4 true Int.toNat (0:Nat) [1,2,3,4,5,6] .stop).events =
+    [(3, [1,2,3]), (6, [5,6,0])] := by decide
+example : (blocksCallSrc (0:Nat) (.int 3) (.flt 2) none true [1,2,3,4] .stop).ending = .err .typeError := by decide +kernel
+example : ¬ ((⟨[], 0, true⟩ : GState Int Nat).idx < 0) := by decide
 
 end ALV.Props.C08
 
